@@ -1,5 +1,6 @@
 import GormModel.Drv.Util
 import GormModel.Model.StmtCache
+import GormModel.Model.StmtCacheStore
 open Lean
 namespace Gorm.Drv
 open Gorm.SC
@@ -156,6 +157,32 @@ def replay (nQ : Nat) (steps : List Step) (states : List St) (started : List Nat
         ("moved", natJ moved.length)])
     else replay nQ rest keep started' labels (i + 1)
 
+/-! `["sc.derive", prepare, [[kind, h, prep]…]]` — the derivation world of Model/StmtCacheStore.lean, instantiated with the
+    configuration regenerated from gorm.go (`genSCfg`): per handle its pool kind and the identities (allocation order)
+    of its struct, cache object (Mux) and current map (-1 = nil / none). -/
+
+open Gorm.SCS in
+def parseDOp (j : Json) : Option DOp := do
+  let a ← jArr? j
+  let k ← jStr? (arg a 0)
+  let h ← jNat? (arg a 1)
+  match k with
+  | "session" => some (.session h ((jBool? (arg a 2)).getD false))
+  | "begin" => some (.begin h)
+  | "reset" => some (.reset h)
+  | "close" => some (.close h)
+  | _ => none
+
+def optIdJ : Option Nat → Json
+  | some n => natJ n
+  | none => Json.num (-1 : Int)
+
+open Gorm.SCS in
+def poolJ (w : World) (p : Pool) : Json :=
+  let kind := match p with | .plain => "plain" | .plainTx => "plainTx" | .pdb _ => "pdb" | .ptx _ => "ptx"
+  Json.mkObj [("kind", Json.str kind), ("struct", optIdJ (structOf p)), ("cache", optIdJ (cacheOfPool w p)),
+              ("map", optIdJ (mapOfPool w p))]
+
 end HC14
 open HC14 in
 def handleC14 (op : String) (args : Array Json) : Option Json := do
@@ -187,6 +214,12 @@ def handleC14 (op : String) (args : Array Json) : Option Json := do
       else
         some (Json.mkObj ([("ok", Json.bool true), ("n", natJ states.length), ("deterministic", Json.bool (states.length == 1)),
           ("labels", strListJ labels)] ++ flags acc))
+  | "sc.derive" =>
+    let prepare ← jBool? (arg args 1)
+    let seq ← (← jArr? (arg args 2)).toList.mapM parseDOp
+    let w := Gorm.SCS.runD Gorm.SCS.genSCfg prepare seq
+    some (Json.mkObj [("handles", Json.arr ((w.handles.map (poolJ w)).toArray)), ("caches", natJ w.nC),
+                      ("one_cache", Json.bool (Gorm.SCS.oneCacheB w)), ("stored", optIdJ w.store)])
   | "sc.run" =>
     -- ["sc.run", nV, nQ, threads, [[kind, id, ans]...]]: plain fine-grained run (kind: "thr" | "closeE" | "closeH")
     let nV ← jNat? (arg args 1)
